@@ -16,6 +16,7 @@ func init() {
 		Explanation: "Decided (structural necessary conditions): R1 the three value maps (DataScope.Data — exported, searched module-wide —, DataChildScope.data, DataLocker.data) are read and written only under their mutex; R2 every LockData returns, on all paths, holding the scope's mutex in WRITE mode and hands the locker the Unlock method value of that very mutex; R3 DataLocker.Commit calls the stored unlock exactly once on every path; R4 a child's/locker's Value returns its own entry on the hit edge and parent.Value(same key) on the miss edge, read-type methods never write a map, and child/locker use their parent only through read-only methods (so SetValue on a child cannot change the parent and a read cannot freeze a stale copy); R5 every get-or-create in the module (SetValue(k, fresh) guarded by a nil result of Value(k)) does both calls on the locker obtained from LockData() in that function and reaches Commit() on every path. " +
 			"Added in round 4: R3 exempts only the failing edge of a once-guard `atomic.CompareAndSwap(&locker.flag, 0, non-zero)` on a field that is written nowhere else (a second Commit returns an error instead of unlocking twice); R5 accepts Commit in a deferred function literal that commits on every path. " +
 			"Added in round 5: R6 Value and Keys of every scope type write nothing into a scope object (a child that remembers what it read through its parent keeps answering the old value). " +
+			"Added in round 7: R5 also covers package datascope itself (a GetOrCreate(scope, key, factory) helper is judged like the services that used to spell the idiom out). " +
 			"NOT decided: atomicity as observed under arbitrary interleavings beyond this lock discipline; values stored by users.",
 	})
 }
@@ -404,9 +405,6 @@ func isDataMethod(ci *CallInfo, name string) bool {
 func ruleGetOrCreate(c *Ctx, fns []*ssa.Function) {
 	n := 0
 	for _, f := range fns {
-		if f.Pkg != nil && strings.HasPrefix(f.Pkg.Pkg.Path(), modPath+"/"+dataPkg) {
-			continue
-		}
 		var sets, gets, locks []*CallInfo
 		for _, ci := range Calls(f) {
 			switch {
